@@ -357,6 +357,9 @@ type c16Target struct {
 	count    func() (map[string]float64, error)
 	quiesce  func() bool
 	closeAll func()
+	// broken: a payload stalled this target's pipeline (reported); nothing more can be learned from it, and every
+	// further step would only wait for its timeout
+	broken bool
 }
 
 func c16Marker(i int) (map[string]interface{}, map[string]interface{}) {
@@ -437,6 +440,10 @@ func c16Cluster(c *fw.Ctx) *c16Target {
 // c16CheckInsert sandwiches one malformed payload between two valid marker
 // points and requires both markers to be ingested exactly once.
 func c16CheckInsert(c *fw.Ctx, tg *c16Target, idx int, desc string, send func() error) {
+	if tg.broken {
+		c.Incomplete("insert payloads after " + tg.name + "'s pipeline stalled were not run")
+		return
+	}
 	c.Eval(1)
 	cs := c16Case{Part: "insert", Index: idx, Route: tg.name + ":" + desc}
 	ts := dbdrv.Epoch.Add(500 * time.Millisecond)
@@ -456,6 +463,7 @@ func c16CheckInsert(c *fw.Ctx, tg *c16Target, idx int, desc string, send func() 
 		return
 	}
 	if !tg.quiesce() {
+		tg.broken = true
 		c.Violate("C16", "pipeline-stalled-after-malformed-insert", fmt.Sprintf("%s: after payload %s (send err=%v) ingestion did not catch up", tg.name, desc, sendErr), cs)
 		return
 	}
